@@ -180,6 +180,10 @@ pub fn build_sweep(tier: Tier) -> Vec<IoRun> {
         for e in [libc::EIO, libc::EINTR] {
             push(&w, scratch(), Pre::Absent, PlanSpec { close_err: Some(e), ..Default::default() }, None, &mut runs);
         }
+        // rename/ftruncate faults: delivered only to implementations that use them
+        for e in [libc::EXDEV, libc::EACCES, libc::ENOSPC, libc::EIO] {
+            push(&w, scratch(), Pre::Longer(17), PlanSpec { meta_err: Some(e), ..Default::default() }, None, &mut runs);
+        }
         // pre-states, alone and under one hard fault
         for pre in [Pre::Shorter, Pre::Longer(1), Pre::Longer(4096), Pre::Identical, Pre::Garbage] {
             push(&w, scratch(), pre.clone(), PlanSpec::default(), None, &mut runs);
